@@ -18,7 +18,7 @@ def dec(tok):
     if tok.startswith("j"):
         return json.loads(tok[1:])
     if tok.startswith("f"):
-        return float(tok[1:])
+        return float(tok[1:]) * TICKS       # a time that is not a whole number of ticks, in (fractional) ticks
     try:
         return int(tok)
     except ValueError:
@@ -886,6 +886,42 @@ def check_C16(tr):
                 if not any(t is not None and v <= t < v + B for t in true):
                     out.append(Finding("C16", "a recorded time lies less than one interval before the true time", st.i,
                                        {"table": tbl, "row": r, "true_candidates": true[:5]}))
+    return out
+
+
+def check_C16_float(tr):
+    """the same two clauses for arbitrary double-precision times (seconds), in Python's own float arithmetic"""
+    out = []
+    b = tr.cfg.get("blur")
+    if not tr.cfg.get("usage") or not b:
+        return out
+    sec = lambda v: None if v is None else (v / float(TICKS))
+    for st in tr.steps:
+        if st.pre is None or st.post is None:
+            continue
+        op = st.op
+        when = op.get("t", op.get("now"))
+        for tbl, idx in (("u_nameplates", 1), ("u_mailboxes", 2), ("u_clients", 2)):
+            pre = list(getattr(st.pre, tbl))
+            for r in getattr(st.post, tbl):
+                if r in pre:
+                    pre.remove(r)
+                    continue
+                v = sec(r[idx])
+                if v is None or v % b != 0:
+                    out.append(Finding("C16", "a recorded time is a multiple of the blur interval", st.i, {"table": tbl, "row": r, "blur": b}))
+                    continue
+                if tbl == "u_clients":
+                    true = [sec(when)]
+                elif tbl == "u_nameplates":
+                    true = [sec(min(s[3] for s in st.pre.np_sides if s[0] == n[0])) for n in st.pre.nameplates
+                            if n[1] == r[0] and [s for s in st.pre.np_sides if s[0] == n[0]]]
+                else:
+                    true = [sec(min([s[3] for s in st.post_sides_at_delete(m[1])] or [when]))
+                            for m in list(st.pre.mailboxes) + _ephemeral_mailbox(st) if m[0] == r[0]]
+                if not any(t is not None and 0 <= t - v < b for t in true):
+                    out.append(Finding("C16", "a recorded time lies less than one interval before the true time", st.i,
+                                       {"table": tbl, "row": r, "recorded_s": v, "true_candidates_s": true[:5], "blur": b}))
     return out
 
 
